@@ -205,6 +205,16 @@ def extra_c19(seed, tier, log):
             b["id"] = s["id"] + f"-shift{k}"
             jobs += [(s, {}), (b, {})]
             meta.append((s, b, k))
+    # one long run: the same events placed after the periodic equilibrium check (every 182 temporal units)
+    for s in [x for x in scns if x["model"]["dt"] == 1][: n_for(tier, 2, 5)]:
+        k = 190
+        b = copy.deepcopy(s)
+        b["sim"]["n"] = s["sim"]["n"] + k
+        for e in b["events"]:
+            e["occ"] = e["occ"] + k
+        b["id"] = s["id"] + f"-shift{k}"
+        jobs += [(s, {}), (b, {})]
+        meta.append((s, b, k))
     res = run_many(jobs)
     failures, scenarios = [], {}
     for i, (s, b, k) in enumerate(meta):
@@ -273,6 +283,9 @@ def shuffled_twin(s, rng):
             cap["labels"] = [cap["labels"][i] for i in p]
             cap["values"] = [cap["values"][i] for i in p]
     for e in b["events"]:
+        for key in ("regions", "sectors", "regional_distrib", "sectoral_distrib", "industries", "distrib"):
+            if isinstance(e.get(key), list):
+                rng.shuffle(e[key])
         if "impact" in e:
             rng.shuffle(e["impact"])
         if e.get("households"):
@@ -300,6 +313,25 @@ def extra_c15(seed, tier, log):
             ev["name"] = "ev0"
             s["events"] = [ev]
     scns += more
+    # events built from a scalar over regions x sectors (or a list of industries) with weights:
+    # the twin lists regions, sectors, industries and weight entries in another order
+    sc, _ = _gen_many(seed, tier, "c15sc", ["mixed"], 3, 10, overrides=dict(events=0, sparsity="dense"))
+    for s in sc:
+        regs, secs = s["table"]["regions"], s["table"]["sectors"]
+        K = sum(sum(r) for r in s["table"]["Y"]) * 0.01
+        nr, ns = rng.randint(1, len(regs)), rng.randint(2, len(secs)) if len(secs) > 1 else 1
+        ar, asec = rng.sample(regs, nr), rng.sample(secs, ns)
+        ev = dict(type="recovery", ctor="scalar_regions_sectors", scalar=K, regions=ar, sectors=asec,
+                  regional_distrib=[[r, rng.choice([1.0, 2.0, 5.0])] for r in ar],
+                  sectoral_distrib=[[x, rng.choice([1.0, 3.0, 7.0])] for x in asec],
+                  occ=2, dur=2, tau=5, recovery_function="linear", emf=s["model"]["monetary_factor"], name="sc")
+        inds = [(r, x) for r in ar for x in asec]
+        ev2 = dict(type="recovery", ctor="scalar_industries", scalar=K, industries=[list(i) for i in inds],
+                   distrib=[[list(i), rng.choice([1.0, 2.0, 4.0])] for i in inds],
+                   occ=3, dur=1, tau=4, recovery_function="linear", emf=s["model"]["monetary_factor"], name="si")
+        s["events"] = [ev, ev2]
+        s["id"] += "-scalar"
+    scns += sc
     jobs, meta = [], []
     for s in scns:
         for r in range(n_for(tier, 1, 3)):
@@ -600,6 +632,40 @@ def extra_c17(seed, tier, log):
                 if "Cannot distribute" not in str(ex.__cause__ or ex) and "capital lost" not in str(ex.__cause__ or ex):
                     failures.append(_fail("C17", s, f"one Event object cannot be used in two simulations: {type(ex).__name__}: {ex}",
                                           sig="event-reuse-raises"))
+    # models of the same shape but with different real-input masks, run one after the other in
+    # shortage regimes, must not influence each other (shared scratch buffers, caches ...)
+    sh, _ = _gen_many(seed, tier, "c17sh", ["exhaust", "shortage"], 3, 8, pred=lambda s: len(s["table"]["sectors"]) >= 2)
+    for s in sh:
+        # same table and events, different sets of never-constraining inputs (hence different masks)
+        variants = []
+        for k in (0, -1):
+            v = copy.deepcopy(s)
+            v["model"].pop("inventory_dict", None)
+            v["model"]["infinite_inventories_sect"] = [s["table"]["sectors"][k]]
+            v["model"]["main_inv_dur"] = 2 * s["model"]["dt"]
+            v["id"] = s["id"] + f"-inf{k}"
+            variants.append(v)
+        w = copy.deepcopy(s)
+        w["model"].pop("inventory_dict", None)
+        w["model"].pop("infinite_inventories_sect", None)
+        w["model"]["main_inv_dur"] = 2 * s["model"]["dt"]
+        w["id"] = s["id"] + "-noinf"
+        variants.append(w)
+        solos = [drive.run(v, tap=False) for v in variants]
+        evals += len(variants)
+        for i, v in enumerate(variants):
+            scenarios[v["id"]] = v
+            for j, o in enumerate(variants):
+                if i == j:
+                    continue
+                drive.run(o, tap=False)
+                after = drive.run(v, tap=False)
+                evals += 2
+                d = compare_runs(solos[i], after, bitwise=True)
+                if d:
+                    failures.append(_fail("C17", v, f"result depends on a model of the same shape run earlier in the process ({o['id']}): {d[0]}",
+                                          sig="not-isolated-same-shape"))
+                    break
     # default arguments: two simulations saving records must not share files
     s = scns[0]
     try:
